@@ -184,7 +184,7 @@ Proof.
 Qed.
 
 (* a unit-relative site never names a DIE of another unit *)
-Lemma unit_relative_stays_home : forall units u u' e' par' s,
+Lemma unit_relative_stays_home_full : forall units u u' e' par' s,
   wf_layout units -> In u units -> occurs units u' e' par' ->
   site_unit_relative s = true -> In (sec u' (e_off e')) (filter_refs u s) -> u' = u.
 Proof.
